@@ -596,6 +596,10 @@ class Interp(BuiltinsMixin):
             return [Const(c) for c in it.v]
         if isinstance(it, Obj):
             h = path.heap[it.oid]
+            if h.kind == 'iterator':
+                items, pos = h.fields['$items'].items, h.fields['$pos'].v
+                h.fields['$pos'] = Const(len(items))
+                return list(items[pos:])
             if h.kind in ('list', 'set') and h.concrete():
                 return [p.val for p in h.parts]
             if h.kind == 'dict' and h.concrete():
@@ -979,9 +983,44 @@ class Interp(BuiltinsMixin):
         after.notes.append(('stateful-loop', sorted(read), loop))
 
     def st_While(self, st, fr, path):
-        # concrete `while` is not needed in this code base: always generic
+        if getattr(self.hooks, 'unroll_while', False):
+            return self.peeled_while(st, fr, path)
         return self.generic_loop(st, App('while', Const(ast.unparse(st.test))),
                                  fr, path)
+
+    def peeled_while(self, st, fr, path, limit=12):
+        """iterations whose test is decided by what is known are executed
+        one by one (on concrete terms: `while isinstance(f, Not): f = ...`);
+        as soon as a test is not decided the rest is the generic loop"""
+        out = []
+        cur = [path]
+        for _ in range(limit):
+            nxt = []
+            for p in cur:
+                for (q, tv) in self.eval(st.test, fr, p):
+                    if isinstance(tv, Raise):
+                        out.append((q, tv))
+                        continue
+                    t = self.truth(tv, q)
+                    if t is None:
+                        out.extend(self.generic_loop(
+                            st, App('while', Const(ast.unparse(st.test))),
+                            fr, q))
+                    elif t is False:
+                        out.extend(self.exec_block(st.orelse, fr, q))
+                    else:
+                        for (r, sig) in self.exec_block(st.body, fr, q):
+                            if sig is None or sig == CNT:
+                                nxt.append(r)
+                            elif sig == BRK:
+                                out.append((r, None))
+                            else:
+                                out.append((r, sig))
+            cur = nxt
+            if not cur:
+                return out
+        self.inconclusive('while loop not finished after %d decided '
+                          'iterations' % limit, st)
 
     # -- try ----------------------------------------------------------------
     def st_Try(self, st, fr, path):
@@ -1099,6 +1138,24 @@ class Interp(BuiltinsMixin):
         return res
 
     def st_With(self, st, fr, path):
+        # `with contextlib.suppress(A, B): BODY` is
+        # `try: BODY  except (A, B): pass`
+        if len(st.items) == 1 and st.items[0].optional_vars is None and \
+                isinstance(st.items[0].context_expr, ast.Call) and \
+                not st.items[0].context_expr.keywords:
+            call = st.items[0].context_expr
+            fv = self.eval_one(call.func, fr, path)
+            if isinstance(fv, ERef) and fv.name == 'contextlib.suppress' \
+                    and call.args:
+                typ = call.args[0] if len(call.args) == 1 else ast.Tuple(
+                    elts=list(call.args), ctx=ast.Load())
+                h = ast.ExceptHandler(type=typ, name=None, body=[ast.Pass()])
+                t = ast.Try(body=st.body, handlers=[h], orelse=[],
+                            finalbody=[])
+                for n in (typ, h, t, h.body[0]):
+                    ast.copy_location(n, st)
+                ast.fix_missing_locations(t)
+                return self.exec_stmt(t, fr, path)
         self.inconclusive('with statement', st)
 
     def st_Assert(self, st, fr, path):
@@ -1129,7 +1186,8 @@ class Interp(BuiltinsMixin):
         depth = len(self.stack)
         forced = id(fnode) in getattr(self, '_forced', ())
         if depth >= self.max_depth or \
-                sum(1 for f in self.stack if f.node is fnode) >= 2 or \
+                sum(1 for f in self.stack if f.node is fnode) >= getattr(
+                    self.hooks, 'max_self_recursion', 2) or \
                 not (forced or self.hooks.inline(self, fi, args)):
             v = App('call', fref, Tup(args), Tup(Tup((Const(k), a))
                                                   for k, a in kw))
